@@ -622,6 +622,37 @@ pub fn run(args: &Args, rep: &mut Report) {
                 rep.evaluations += 1;
             }
         }
+        // dense windows where the cluster count crosses a FAT type limit, for explicit cluster sizes
+        let mut wn = 0u64;
+        for bps in [512u16, 4096] {
+            for spc in [1u32, 2, 8, 64] {
+                for fats in [1u8, 2] {
+                    for fat in [None, Some(12u8), Some(16), Some(32)] {
+                        for root_entries in [512u16, 16] {
+                            wn += 1;
+                            if wn % nshards != shard {
+                                continue;
+                            }
+                            let mut o = FOpts::default_for(0);
+                            o.bps = bps;
+                            o.bpc = Some(u32::from(bps) * spc);
+                            o.fats = fats;
+                            o.fat = fat;
+                            o.root_entries = root_entries;
+                            let lib = o.to_lib_no_total();
+                            for lim in [4085u64, 65525] {
+                                let lo = (lim - 3) * u64::from(spc);
+                                let hi = (lim + 3) * u64::from(spc) + 1200;
+                                for t in lo..hi.min(u64::from(u32::MAX)) {
+                                    judge_hook(rep, &o, &lib, t as u32, &mut stats);
+                                    rep.evaluations += 1;
+                                }
+                            }
+                        }
+                    }
+                }
+            }
+        }
         rep.count("hook:fat12", stats[0]);
         rep.count("hook:fat16", stats[1]);
         rep.count("hook:fat32", stats[2]);
